@@ -271,3 +271,54 @@ def rf7c(run):
             run.violation(rule, of, 'data element type %s' % t,
                           'the text writer prints data items of element type %s but the scanner\'s switch on data_type has no case '
                           'for it ("wrong data clause")' % t, line=ssw[0][0]['l'])
+
+
+def rf22(run, entries=('MIR_scan_string',)):
+    """character input functions: a byte fetched from a char buffer must go through unsigned char before it shares an int
+    with EOF, otherwise byte 0xFF is indistinguishable from end of input (and bytes >= 0x80 become negative)"""
+    rule = 'RF22'
+    run.rule(rule, 'scanner input: an int-returning character fetcher that can return EOF converts the fetched char through '
+                   'unsigned char (plain char is signed in this build: byte 0xFF would equal EOF)')
+    tu = run.tu('mir')
+    fs = tu.reachable(entries)
+    n = 0
+    for fn in sorted(fs):
+        f = tu.funcs[fn]
+        rt = tu.types[f.ret]
+        if rt.kind != 'int' or rt.w != 32:
+            continue
+        rets = [r for r in f.walk() if r['k'] == 'ReturnStmt' and F.kids(r)]
+        if not any(F.const_value(F.strip(F.kids(r)[0])) == -1 for r in rets):
+            continue
+        # values returned through a local: follow one level of `int ch = <expr>` / `ch = <expr>`
+        sources = []
+        for r in rets:
+            e = F.strip(F.kids(r)[0], explicit=False)
+            if e['k'] == 'DeclRefExpr' and e.get('dk') == 'local':
+                for x in f.walk():
+                    if x['k'] == 'DeclStmt':
+                        for d in x['decls']:
+                            if d['n'] == e['n'] and d.get('init') is not None:
+                                sources.append(d['init'])
+                    if x['k'] == 'BinaryOperator' and x['op'] == '=' and F.src(F.strip(x['c'][0])) == e['n']:
+                        sources.append(x['c'][1])
+            else:
+                sources.append(F.kids(r)[0])
+        for s in sources:
+            # an implicit IntegralCast char -> int directly over an lvalue read of type (signed) char
+            x = s
+            if x['k'] == 'ImplicitCastExpr' and x.get('ck') == 'IntegralCast':
+                inner = x['c'][0]
+                it = tu.type(inner)
+                if it is not None and it.kind == 'int' and it.w == 8 and it.signed and \
+                        F.strip(inner, explicit=False)['k'] in ('ArraySubscriptExpr', 'UnaryOperator', 'MemberExpr', 'DeclRefExpr'):
+                    n += 1
+                    run.ob(rule, (fn, s['l']), False, {'function': fn, 'fetch': F.src(s), 'verdict': 'signed char widened to int next to EOF'})
+                    run.violation(rule, f, 'fetch %s' % F.src(s),
+                                  '%s returns EOF (-1) and also the signed char %s widened to int: input byte 0xFF is taken for end of '
+                                  'input and bytes >= 0x80 become negative' % (fn, F.src(s)), line=s['l'])
+                    continue
+            if any(y['k'] in ('ArraySubscriptExpr',) for y in F.walk(s)) or s['k'] in F.CASTS:
+                n += 1
+                run.ob(rule, (fn, s['l']), True, {'function': fn, 'fetch': F.src(s, casts=True), 'verdict': 'converted before widening'})
+    return n
